@@ -305,5 +305,37 @@ def run_srv():
     return res
 
 
+def run_wire():
+    """the static tie of the configuration wiring: translate_wire.py regenerates GeneratedWire.lean (constructors of Server / AppNamespace /
+    Mailbox and the four construction sites from makeService down); Wormhole/Tie/Wire.lean proves where every attribute comes from"""
+    import translate_wire
+    spec = json.load(open(os.path.join(LEAN, "theorems.json")))["WIRETIE"]
+    res = {"status": "tied", "theorems": len(spec["theorems"]), "discharged": 0, "detail": ""}
+    with open(os.path.join(LEAN, ".lake", "verif-build.lock"), "w") as lk:
+        fcntl.flock(lk, fcntl.LOCK_EX)
+        info = translate_wire.main()
+        if "error" in info:
+            res.update(status="untranslatable", detail=info["error"])
+            return res
+        res["construction_sites"] = info["calls"]
+        key = _cache_key(translate_wire.OUT, ["Wire.lean"])
+        hit = _cache_get("wire", key)
+        if hit is not None:
+            hit["cached"] = True
+            return hit
+        ok, log = _lake(spec["modules"][0])
+        if not ok:
+            res["status"] = "broken"
+            res["detail"] = " | ".join([l for l in log.splitlines() if l.startswith("error")][:4])[-1000:]
+            _cache_put("wire", key, res)
+            return res
+        res["discharged"], bad = _audit(spec["modules"], spec["theorems"], "WIRETIE")
+        if bad:
+            res["status"] = "broken"
+            res["detail"] = "axioms: %s" % json.dumps(bad)[:600]
+        _cache_put("wire", key, res)
+    return res
+
+
 if __name__ == "__main__":
-    print(json.dumps({"sql": run(), "ws": run_ws(), "summ": run_summ(), "tap": run_tap(), "srv": run_srv()}, indent=1))
+    print(json.dumps({"sql": run(), "ws": run_ws(), "summ": run_summ(), "tap": run_tap(), "srv": run_srv(), "wire": run_wire()}, indent=1))
